@@ -1,10 +1,12 @@
 (* Channel "ess": ExactSumSweep (C16).  Oracle: the proved brute-force specification /
    checker (Algo/EssSpec.v: check_ess_dm and its parts) applied to what the implementation
    returned; schedule independence across thread pools.  Correspondence: replay of the
-   logged step sequence on the abstract machine (Algo/Ess.v), when available. *)
+   logged step sequence on the abstract machine (Algo/Ess.v; directed runs with SCC steps:
+   Algo/EssScc.v, with the components of the extracted model of sccs::tarjan). *)
 open Model
 open Model.EssSpecM
 open Model.EssM
+open Model.EssSccM
 type string = Stdlib.String.t
 let max = Stdlib.max
 let min = Stdlib.min
@@ -19,6 +21,8 @@ type spec = {
   dm : nat option list list;
   largest : nat list;                 (* nodes of the largest components *)
   radials : (int, bool list) Hashtbl.t;  (* default radial set per candidate node *)
+  mutable sd : sdata option;          (* components (model of sccs::tarjan), distances inside
+                                         the components, component DAG: computed on demand *)
 }
 
 let specs : (string, spec) Hashtbl.t = Hashtbl.create 64
@@ -33,7 +37,7 @@ let spec_of (gs : string) : spec =
     let g = List.map nats (lists_of_string gs) in
     let wf = wf_graph g in
     let dm = if wf then dist_matrix g else [] in
-    let s = { g; wf; dm; largest = (if wf then largest_scc_nodes dm else []); radials = Hashtbl.create 4 } in
+    let s = { g; wf; dm; largest = (if wf then largest_scc_nodes dm else []); radials = Hashtbl.create 4; sd = None } in
     Hashtbl.replace specs gs s; s
 
 let radial_for (s : spec) (c : nat) : bool list =
@@ -41,6 +45,17 @@ let radial_for (s : spec) (c : nat) : bool list =
   match Hashtbl.find_opt s.radials ci with
   | Some r -> r
   | None -> let r = radial_of s.dm c in Hashtbl.replace s.radials ci r; r
+
+(* static data of the directed SCC step: the component numbering is that of the extracted
+   model of sccs::tarjan (proved correct and reverse topological; channel "scc" compares it
+   with the implementation's), the transpose only contributes indegrees to arc_value *)
+let sdata_for (s : spec) : sdata =
+  match s.sd with
+  | Some d -> d
+  | None ->
+    let (comp, k) = Model.SccM.tarjan s.g in
+    let d = mk_sdata s.g (Model.SccM.transpose s.g) comp k in
+    s.sd <- Some d; d
 
 (* distinct candidate default radial sets *)
 let default_radials (s : spec) : bool list list =
@@ -120,11 +135,13 @@ let run (args : (string * string) list) : string =
        add "schedrv" (if rv0 = rv then "ok" else "FAIL(" ^ rv0 ^ "/" ^ rv ^ ")"));
     (* correspondence: replay of the logged steps on the abstract machine; every reported
        value and iteration counter must agree.  Visits are replayed for both variants; the
-       SCC refinement step ("A") is modelled for run_symm only, with the pivots of the model
-       of find_best_pivot: directed runs with an "A" step are not replayed *)
+       SCC refinement step ("A") is replayed with the pivots of the model of find_best_pivot:
+       symmetric branch on the machine of Algo/Ess.v (aspect replaya), directed branch
+       (component DAG of scc_graph.rs, propagation loops, per-node refinement) on the machine
+       of Algo/EssScc.v (aspect replayd) *)
     let steps = split_on ',' (get args "steps") in
     let has_a = List.mem "A" steps in
-    if steps <> [] && (not has_a || sym) then begin
+    if steps <> [] then begin
       let n = List.length s.g in
       let order = List.init n nat_of_int in
       let op_of t =
@@ -136,8 +153,12 @@ let run (args : (string * string) list) : string =
       let cmp_opt k (c : nat option) = match get_opt args k with
         | None -> true
         | Some v -> (match c with Some x -> int_of_nat x = int_of_string v | None -> false) in
+      let tot = get args "tot" = "1" in
+      let directed_a = has_a && not sym in
       let one radial =
-        let (okf, (c, mo)) = run_logged_dm sym (get args "tot" = "1") s.dm (nat_of_int n) radial heur loop l in
+        let (okf, (c, mo)) =
+          if directed_a then run_logged_dir tot s.dm (nat_of_int n) (sdata_for s) radial heur loop l
+          else run_logged_dm sym tot s.dm (nat_of_int n) radial heur loop l in
         let vals =
           okf
           && (not (wants_eccf l) || mo.o_eccf = eccf)
@@ -147,8 +168,18 @@ let run (args : (string * string) list) : string =
           && cmp_opt "ri" c.c_ri && cmp_opt "di" c.c_di && cmp_opt "fi" c.c_fi && cmp_opt "ai" c.c_ai in
         (vals, (not (wants_rad l)) || mo.o_rv = o.o_rv) in
       let rs = List.map one radials in
-      add (if has_a then "replaya" else "replay") (ok (List.exists fst rs));
-      if List.exists fst rs then add "replayrv" (ok (List.exists (fun (a, b) -> a && b) rs))
+      add (if directed_a then "replayd" else if has_a then "replaya" else "replay") (ok (List.exists fst rs));
+      if directed_a then add "i_dsteps" (string_of_int (int_of_nat (count_la loop)));
+      (* the radial vertex: the per-node loop of the directed SCC step is a parallel iteration
+         whose only shared state is (radius, vertex) under a lock with a strict comparison, so
+         the vertex depends on the schedule; the model is run with the order 0..n-1, which is
+         the order of a pool of one thread: exact comparison there, information otherwise (the
+         oracle aspect rv decides) *)
+      if List.exists fst rs then begin
+        let rvok = List.exists (fun (a, b) -> a && b) rs in
+        if directed_a && get_int args "pool" > 1 then add "i_rvsched" (if rvok then "same" else "differs")
+        else add "replayrv" (ok rvok)
+      end
     end;
     Buffer.contents res
   end
